@@ -2,7 +2,7 @@
    EC coordinates of JWKs.  Every proof is `exact <lemma>` or a closed computation. *)
 From Coq Require Import List String ZArith NArith Bool.
 Import ListNotations.
-From VF Require Import C16.Model C16.ModelT C16.ProofsD3 C16.ProofsT C16.ProofsT2.
+From VF Require Import C16.Model C16.ModelT C16.ModelJ C16.ProofsD3 C16.ProofsT C16.ProofsT2 C16.ProofsJ.
 From VF Require common.Base64.
 Local Open Scope string_scope.
 Local Open Scope list_scope.
@@ -91,3 +91,59 @@ Print Assumptions jwk_ec_coordinates_roundtrip.
 Example jwk_ec_leading_zero_kept : jwk_ec_members 4 5%Z 258%Z = ("AAAABQ", "AAABAg") /\ jwk_ec_read 4 "AAAABQ" "AAABAg" = Some (5%Z, 258%Z)
   /\ jwk_ec_read 4 "BQ" "AAABAg" = None.
 Proof. repeat split; vm_compute; reflexivity. Qed.
+
+(* ---- which strings are compact JWS: decided by the model (jwt.IsJWS at character level) ---- *)
+Theorem jws_recognised_exactly : forall s m, jws_payload s = Some m ->
+  exists h p sg hb pb hm, split_dot s = [h; p; sg] /\ sg <> "" /\
+    b64_dec true h = Some hb /\ b64_dec true p = Some pb /\ parse_json_obj hb = Some hm /\ parse_json_obj pb = Some m.
+Proof. exact jws_shape. Qed.
+Print Assumptions jws_recognised_exactly.
+
+(* the environment the model computes from a string holds exactly the compact JWS among its ~-separated parts, each
+   with the _sd_alg flag of its own payload *)
+Theorem jws_env_sound : forall s p b, In (p, b) (jws_of_string s) ->
+  In p (split_tilde s) /\ exists m, jws_payload p = Some m /\ b = jws_sd m.
+Proof. exact ProofsJ.jws_env_sound. Qed.
+Print Assumptions jws_env_sound.
+
+Theorem jws_env_complete : forall s p m, In p (split_tilde s) -> jws_payload p = Some m -> In (p, jws_sd m) (jws_of_string s).
+Proof. exact ProofsJ.jws_env_complete. Qed.
+Print Assumptions jws_env_complete.
+
+Example jws_examples :
+  option_map jws_sd (jws_payload "eyJhbGciOiJFZERTQSIsImtpZCI6ImRpZDpleDppc3N1ZXIja2V5LTEifQ.eyJpc3MiOiJkaWQ6ZXg6aXNzdWVyIiwibmJmIjoxNTc3ODM2ODAwLjAsInZjIjp7Il9zZF9hbGciOiJzaGEtMjU2IiwidHlwZSI6WyJWZXJpZmlhYmxlQ3JlZGVudGlhbCJdLCJjcmVkZW50aWFsU3ViamVjdCI6eyJpZCI6ImRpZDpleDpzMSIsIl9zZCI6WyJhVmZDIl19fX0.c2ln") = Some true /\
+  option_map jws_sd (jws_payload "eyJhbGciOiJFZERTQSIsImtpZCI6ImRpZDpleDppc3N1ZXIja2V5LTEifQ.eyJpc3MiOiJkaWQ6ZXg6aXNzdWVyIiwidmMiOnsidHlwZSI6IlZlcmlmaWFibGVDcmVkZW50aWFsIiwiYSI6WzEsLTIsdHJ1ZSxudWxsLHsieCI6InlcXFwieiJ9XX19.c2ln") = Some false /\
+  jws_payload "eyJhbGciOiJFZERTQSIsImtpZCI6ImRpZDpleDppc3N1ZXIja2V5LTEifQ.eyJpc3MiOiJkaWQ6ZXg6aXNzdWVyIiwibmJmIjoxNTc3ODM2ODAwLjAsInZjIjp7Il9zZF9hbGciOiJzaGEtMjU2IiwidHlwZSI6WyJWZXJpZmlhYmxlQ3JlZGVudGlhbCJdLCJjcmVkZW50aWFsU3ViamVjdCI6eyJpZCI6ImRpZDpleDpzMSIsIl9zZCI6WyJhVmZDIl19fX0." = None /\ jws_payload "eyJhbGciOiJFZERTQSIsImtpZCI6ImRpZDpleDppc3N1ZXIja2V5LTEifQ.eyJpc3MiOiJkaWQ6ZXg6aXNzdWVyIiwibmJmIjoxNTc3ODM2ODAwLjAsInZjIjp7Il9zZF9hbGciOiJzaGEtMjU2IiwidHlwZSI6WyJWZXJpZmlhYmxlQ3JlZGVudGlhbCJdLCJjcmVkZW50aWFsU3ViamVjdCI6eyJpZCI6ImRpZDpleDpzMSIsIl9zZCI6WyJhVmZDIl19fX0" = None /\ jws_payload "WyJzYWx0IiwiY2xhaW0wIiwidiJd" = None /\
+  jws_payload "eyJhbGciOiJFZERTQSIsImtpZCI6ImRpZDpleDppc3N1ZXIja2V5LTEifQ.WyJzYWx0Il0.c2ln" = None.
+Proof. repeat split; vm_compute; reflexivity. Qed.
+
+(* ---- generated tables (translator c16gen, regenerated from /repo on every run) ---- *)
+Definition proof_full : dproof :=
+  {| dp_type := "T"; dp_created := {| t_y := 2020; t_mo := 1; t_d := 1; t_h := 0; t_mi := 0; t_s := 0; t_frac := []; t_zone := None |};
+     dp_creator := "c"; dp_rel := false; dp_value := PVb64 [1%N]; dp_domain := "d"; dp_nonce := [1%N]; dp_purpose := "p" |}.
+Definition proof_bare : dproof :=
+  {| dp_type := "T"; dp_created := dp_created proof_full; dp_creator := ""; dp_rel := false; dp_value := PVb64 [];
+     dp_domain := ""; dp_nonce := []; dp_purpose := "" |}.
+Definition keys_of (j : json) : list string := match j with JObj o => map fst o | _ => [] end.
+(* the members the model writes for a proof are the members populateRawProofs writes, in its order; the members it
+   leaves out when they are not set are exactly the ones the code writes inside an if statement; the members read
+   by populateProofs are the members written *)
+Theorem did_proof_members_are_generated :
+  keys_of (enc_dproof Fixed "" "" proof_full) = map fst did_proof_written_keys /\
+  keys_of (enc_dproof Fixed "" "" proof_bare) = map fst (filter (fun e => negb (snd e)) did_proof_written_keys) /\
+  forallb (fun k => mem k (map fst did_proof_written_keys)) did_proof_read_keys = true /\
+  forallb (fun k => mem k did_proof_read_keys) (map fst did_proof_written_keys) = true.
+Proof. vm_compute. repeat split. Qed.
+Print Assumptions did_proof_members_are_generated.
+
+(* every member of rawDoc except the legacy publicKey (context v0.11) is read by the model of the DID document, and
+   the model reads no other; the members populateServices takes out of a service are members of the Service struct *)
+Theorem did_model_names_are_generated :
+  map (fun f => fst (fst f)) rawDoc_fields =
+    ["@context"; "id"; "alsoKnownAs"; "verificationMethod"; "publicKey"; "service"; "authentication"; "assertionMethod";
+     "capabilityDelegation"; "capabilityInvocation"; "keyAgreement"; "created"; "updated"; "proof"] /\
+  forallb (fun k => mem k (did_names ++ ["created"; "updated"; "proof"; "publicKey"])) (map (fun f => fst (fst f)) rawDoc_fields) = true /\
+  forallb (fun k => mem k (map (fun f => fst (fst f)) rawDoc_fields)) (did_names ++ ["created"; "updated"; "proof"]) = true /\
+  forallb (fun k => mem k (map (fun f => fst (fst f)) service_fields)) service_typed_keys = true.
+Proof. vm_compute. repeat split. Qed.
+Print Assumptions did_model_names_are_generated.
